@@ -93,8 +93,10 @@ P["C09"] = dict(cat="proof",
          "idempotent, TU => yes, regular support => output TU and (yes => TU) for up to 20 entries, violator = two nonzeros per line with "
          "det +-2 (and thereby a TU-violator by the proved checker). Tie: all signings of all supports with m*n <= 9/12, random to 6x6, "
          "structured (network, R10, R12, sums, scaled, permuted, corrupted).",
-    note=NOTE_COMMON + "Camion's theorem is not formalised: 'regular support => output TU' is checked per instance against the proved oracles "
-         "(regular_bf, tu_bf), not proved for all sizes; the BFS signing algorithm is not modelled structurally.",
+    note=NOTE_COMMON + "Camion's uniqueness theorem IS proved (CamionUnique.v: a TU signing of a support is unique up to row/column scaling), "
+         "so on supports certified regular (stream camion_cert: a certified TU matrix with the same support) 'output TU' and the test verdict are "
+         "decided at every size; elsewhere 'regular support => output TU' is checked against the proved oracles (regular_bf, tu_bf) up to 20 "
+         "entries; the BFS signing algorithm is not modelled structurally.",
     tech="extracted Coq judge over proved oracles (tu_bf = det definition, regular_bf = signable-to-TU) + observed fixpoint behaviour", ref="DESIGN.md C09")
 
 P["C03"] = dict(cat="proof",
